@@ -26,8 +26,11 @@ THEOREMS += ['CC.C01_gen_values', 'CC.C01_gen_predicates', 'CC.C01_gen_isfinite'
     'CC.C01_gen_power', 'CC.C01_gen_solution_vector']
 LEAN_MODULE_EXTRA = ['CC.Proofs.Solvable', 'CC.Properties.C01Gen', 'CC.Properties.C01Det']
 THEOREMS += ['CC.C01_det_ne_zero', 'CC.C01_det_iff', 'CC.C01_exists']
+# round 5: kernel-checked self-loop counterexample over Q (CC/Properties/C01More.lean)
+LEAN_MODULE_EXTRA += ['CC.Properties.C01More']
+THEOREMS += ['CC.C01_self_loop_counterexample', 'CC.C01_sound_needs_no_self_loop', 'CC.C01_complete_needs_no_self_loop']
 OPEN_STATEMENTS = [
-    'C01_sound / C01_complete without the hypothesis WF.no_self_loop: FALSE for the current code (open finding: a self-loop branch is added to the diagonal); the real code and the executable model are run on self-loop networks on every run',
+    'C01_sound / C01_complete without the hypothesis WF.no_self_loop: FALSE for the current code (open finding: a self-loop branch is added to the diagonal) — now kernel-checked on the corpus network I(1,0)=1, R(1,0)=2, S(1,1)=2 over Q: C01_self_loop_counterexample (model reports phi1 = -1, KCL residual 1/2 at node 1; the circuit equations have the solution phi1 = -2), C01_sound_needs_no_self_loop, C01_complete_needs_no_self_loop; the provable versions are C01_sound / C01_complete with Net.WF; no theorem describes what the code computes on self-loop networks in general (one witness only); the real code and the executable model are run on self-loop networks on every run',
     'the reference-direction convention of linear sources (shipped examples 3 and 14) is part of the Spec (Elem.lawResidual) and pinned by the harness corpus; the C01_examples theorem of the plan (DESIGN §5) was not written',
 ]
 ASSUMPTIONS = [
